@@ -23,19 +23,19 @@ theorem atomicWrite_touches (p t : Path) (c : Bytes) (q : Path) :
     ∀ o ∈ atomicWrite p t c, o.touches q = true → q = p ∨ q = t := by
   intro o ho hq
   simp only [atomicWrite, writeFile, List.mem_cons, List.mem_append, List.mem_map, List.not_mem_nil, or_false] at ho
-  rcases ho with (rfl | ⟨b, _, rfl⟩ | rfl) | rfl <;> simp [Op.touches] at hq <;> grind
+  rcases ho with (rfl | rfl | ⟨b, _, rfl⟩ | rfl) | rfl <;> simp [Op.touches] at hq <;> grind
 
 theorem appendFile_touches (p : Path) (c : Bytes) (q : Path) :
     ∀ o ∈ appendFile p c, o.touches q = true → q = p := by
   intro o ho hq
   simp only [appendFile, List.mem_cons, List.mem_append, List.mem_map, List.not_mem_nil, or_false] at ho
-  rcases ho with rfl | ⟨b, _, rfl⟩ | rfl <;> simp [Op.touches] at hq <;> grind
+  rcases ho with rfl | rfl | ⟨b, _, rfl⟩ | rfl <;> simp [Op.touches] at hq <;> grind
 
 theorem writeFile_touches (p : Path) (c : Bytes) (q : Path) :
     ∀ o ∈ writeFile p c, o.touches q = true → q = p := by
   intro o ho hq
   simp only [writeFile, List.mem_cons, List.mem_append, List.mem_map, List.not_mem_nil, or_false] at ho
-  rcases ho with rfl | ⟨b, _, rfl⟩ | rfl <;> simp [Op.touches] at hq <;> grind
+  rcases ho with rfl | rfl | ⟨b, _, rfl⟩ | rfl <;> simp [Op.touches] at hq <;> grind
 
 /-- if every op of `ops` that touches `q` … there is none: frame rule in the "touches ⇒ False" form -/
 theorem execs_frame (ops : List (Op Path)) (q : Path) (h : ∀ o ∈ ops, o.touches q = true → False) (fs : FS Path) :
@@ -90,25 +90,48 @@ def body (sys : Sys S) (strat : Strategy) (j : Nat) (s' : S) : List (Op Path) :=
 
 theorem iterOps_eq (sys : Sys S) (strat : Strategy) (j : Nat) (s' : S) :
     iterOpsA sys .repaired strat j s' ++ iterOpsB sys .repaired strat j =
-      body sys strat j s' ++ [Op.replace .markerTmp .marker] ++ appendFile .counting (sys.msgC j) := by
+      invalidate .repaired strat ++
+        (body sys strat j s' ++ [Op.replace .markerTmp .marker] ++ appendFile .counting (sys.msgC j)) := by
   simp [iterOpsA, iterOpsB, body, saveValues, saveMarker, atomicWrite, List.append_assoc]
 
-theorem iterOpsA_prefix_body (sys : Sys S) (strat : Strategy) (j : Nat) (s' : S) :
-    iterOpsA sys .repaired strat j s' <+: body sys strat j s' := by
-  simp only [iterOpsA, body, saveValues, List.append_nil, List.append_assoc]
-  refine ⟨atomicWrite (.mhist (baseOf strat j)) (.mhistTmp (baseOf strat j)) (sys.encM j) ++
+theorem iterOps_eq_all (sys : Sys S) (j : Nat) (s' : S) :
+    iterOpsA sys .repaired .all j s' ++ iterOpsB sys .repaired .all j =
+      body sys .all j s' ++ [Op.replace .markerTmp .marker] ++ appendFile .counting (sys.msgC j) := by
+  rw [iterOps_eq]; simp [invalidate]
+
+theorem iterOpsA_prefix_body (sys : Sys S) (j : Nat) (s' : S) :
+    iterOpsA sys .repaired .all j s' <+: body sys .all j s' := by
+  simp only [iterOpsA, invalidate, body, saveValues, List.append_nil, List.nil_append, List.append_assoc]
+  refine ⟨atomicWrite (.mhist (baseOf .all j)) (.mhistTmp (baseOf .all j)) (sys.encM j) ++
     writeFile .markerTmp (sys.digits j), ?_⟩
   simp [List.append_assoc]
+
+theorem unlinkMean_touches (sys : Sys S) (proto : Proto) (b : Base) (s : S) (q : Path) :
+    ∀ o ∈ unlinkMean sys proto b s, o.touches q = true → q = .mean b := by
+  intro o ho hq
+  unfold unlinkMean at ho
+  split at ho
+  · simp only [List.mem_singleton] at ho; subst ho; simpa [Op.touches, eq_comm] using hq
+  · cases ho
+
+theorem saveMean_touches (sys : Sys S) (b : Base) (s : S) (q : Path) :
+    ∀ o ∈ saveMean sys .repaired b s, o.touches q = true → q = .mean b ∨ q = .meanTmp b := by
+  intro o ho hq
+  unfold saveMean at ho
+  split at ho
+  · exact atomicWrite_touches _ _ _ _ o (by simpa [saveOne] using ho) hq
+  · cases ho
 
 theorem saveSamples_touches (sys : Sys S) (b : Base) (s : S) (q : Path) :
     ∀ o ∈ saveSamples sys .repaired b s, o.touches q = true → own b q = true := by
   intro o ho hq
   simp only [saveSamples, List.mem_cons, List.mem_append] at ho
-  rcases ho with rfl | ho | ho
+  rcases ho with rfl | ho | ho | ho
   · simp [Op.touches] at hq; subst hq; simp [own]
+  · rw [unlinkMean_touches sys _ b s q o ho hq]; simp [own]
   · rcases flatMap_atomic_touches (fun k => .sample b k) (fun k => .sampleTmp b k) (fun k => sys.encSample s k)
       (List.range sys.nsamp) q o ho hq with ⟨k, _, rfl | rfl⟩ <;> simp [own]
-  · rcases atomicWrite_touches _ _ _ _ o (by simpa [saveOne] using ho) hq with rfl | rfl <;> simp [own]
+  · rcases saveMean_touches sys b s q o ho hq with rfl | rfl <;> simp [own]
 
 theorem body_touches (sys : Sys S) (strat : Strategy) (j : Nat) (s' : S) (q : Path) :
     ∀ o ∈ body sys strat j s', o.touches q = true → own (baseOf strat j) q = true := by
@@ -133,39 +156,55 @@ theorem execs_append_frame (fs : FS Path) (A B : List (Op Path)) (q : Path)
     (h : ∀ o ∈ B, o.touches q = true → False) : execs fs (A ++ B) q = execs fs A q := by
   rw [execs_append, execs_frame B q h]
 
-/-- what a completed `ResidualSampleList.save` leaves (repaired protocol) -/
+/-- what a completed `(Residual)SampleList.save` leaves (repaired protocol): the samples, no "next" sample, and the mean
+    file exactly if the state has one (a MAP iteration removes a stale one) -/
 theorem saveSamples_full (sys : Sys S) (b : Base) (s : S) (fs : FS Path) :
     (∀ k, k < sys.nsamp → execs fs (saveSamples sys .repaired b s) (.sample b k) = some (sys.encSample s k)) ∧
     execs fs (saveSamples sys .repaired b s) (.sample b sys.nsamp) = none ∧
-    execs fs (saveSamples sys .repaired b s) (.mean b) = some (sys.encMean s) := by
+    execs fs (saveSamples sys .repaired b s) (.mean b) = sys.encMean s := by
   unfold saveSamples
-  simp only [saveOne]
+  have hflat : ∀ q, (∀ k, q ≠ .sample b k) → (∀ k, q ≠ .sampleTmp b k) → ∀ o ∈ (List.range sys.nsamp).flatMap
+      (fun k => saveOne .repaired (.sample b k) (.sampleTmp b k) (sys.encSample s k)), o.touches q = true → False := by
+    intro q h1 h2 o ho hq
+    rcases flatMap_atomic_touches (fun k => .sample b k) (fun k => .sampleTmp b k) (fun k => sys.encSample s k)
+      (List.range sys.nsamp) _ o ho hq with ⟨k, _, h | h⟩
+    · exact h1 k h
+    · exact h2 k h
   refine ⟨?_, ?_, ?_⟩
   · intro k hk
-    rw [execs_cons, execs_append_frame]
+    rw [execs_cons, execs_append, execs_append_frame]
     · exact execs_flatMap_atomic (fun k => .sample b k) (fun k => .sampleTmp b k) (fun k => sys.encSample s k)
         (by intro a c h; injection h) (by intro a c h; cases h) (List.range sys.nsamp) List.nodup_range _ k
         (List.mem_range.2 hk)
     · intro o ho hq
-      rcases atomicWrite_touches _ _ _ _ o ho hq with h | h <;> cases h
-  · rw [execs_cons, execs_append_frame, execs_frame]
+      rcases saveMean_touches sys b s _ o ho hq with h | h <;> cases h
+  · rw [execs_cons, execs_append, execs_append_frame, execs_frame, execs_frame]
     · simp [exec, FS.set]
+    · intro o ho hq; cases unlinkMean_touches sys _ b s _ o ho hq
     · intro o ho hq
       rcases flatMap_atomic_touches (fun k => .sample b k) (fun k => .sampleTmp b k) (fun k => sys.encSample s k)
         (List.range sys.nsamp) _ o ho hq with ⟨k, hk, h | h⟩
       · injection h with _ h2; have := List.mem_range.1 hk; omega
       · cases h
     · intro o ho hq
-      rcases atomicWrite_touches _ _ _ _ o ho hq with h | h <;> cases h
-  · rw [execs_cons, execs_append]
-    exact execs_atomicWrite _ _ _ _ (by intro h; cases h)
+      rcases saveMean_touches sys b s _ o ho hq with h | h <;> cases h
+  · rw [execs_cons, execs_append, execs_append]
+    cases hm : sys.encMean s with
+    | some c =>
+      have : saveMean sys .repaired b s = atomicWrite (.mean b) (.meanTmp b) c := by simp [saveMean, hm, saveOne]
+      rw [this]; exact execs_atomicWrite _ _ _ _ (by intro h; cases h)
+    | none =>
+      have h1 : saveMean sys .repaired b s = [] := by simp [saveMean, hm]
+      have h2 : unlinkMean sys .repaired b s = [Op.remove (.mean b)] := by simp [unlinkMean, hm]
+      rw [h1, execs_nil, execs_frame _ _ (hflat _ (by intro k h; cases h) (by intro k h; cases h)), h2, execs_cons, execs_nil]
+      simp [exec, FS.set]
 
 /-- what a completed iteration body leaves: all files of the iteration, complete, and the marker temp file -/
 theorem body_full (sys : Sys S) (strat : Strategy) (j : Nat) (s' : S) (fs : FS Path) :
     let b := baseOf strat j
     let fs' := execs fs (body sys strat j s')
     (∀ k, k < sys.nsamp → fs' (.sample b k) = some (sys.encSample s' k)) ∧ fs' (.sample b sys.nsamp) = none ∧
-    fs' (.mean b) = some (sys.encMean s') ∧ fs' (.ehist b) = some (sys.encE j) ∧ fs' (.mhist b) = some (sys.encM j) ∧
+    fs' (.mean b) = sys.encMean s' ∧ fs' (.ehist b) = some (sys.encE j) ∧ fs' (.mhist b) = some (sys.encM j) ∧
     fs' .markerTmp = some (sys.digits j) := by
   intro b fs'
   have hs := saveSamples_full sys b s' fs
@@ -214,6 +253,7 @@ theorem body_full (sys : Sys S) (strat : Strategy) (j : Nat) (s' : S) (fs : FS P
 structure Lawful (sys : Sys S) : Prop where
   nsamp_pos : 0 < sys.nsamp
   dec_enc : ∀ s, sys.decState (sys.encMean s) ((List.range sys.nsamp).map (sys.encSample s)) = some s
+  map_one : ∀ s, sys.encMean s = none → sys.nsamp = 1     -- a MAP iteration (SampleList) has exactly one sample
   okE_enc : ∀ i, sys.okE (sys.encE i) = true
   okM_enc : ∀ i, sys.okM (sys.encM i) = true
   okR_rs : sys.okR sys.rs = true
@@ -222,7 +262,7 @@ structure Lawful (sys : Sys S) : Prop where
 /-- the sample files and the mean file of base `b` are exactly those of state `s`, complete -/
 def FilesOf (sys : Sys S) (b : Base) (s : S) (fs : FS Path) : Prop :=
   (∀ k, k < sys.nsamp → fs (.sample b k) = some (sys.encSample s k)) ∧ fs (.sample b sys.nsamp) = none ∧
-    fs (.mean b) = some (sys.encMean s)
+    fs (.mean b) = sys.encMean s
 
 /-- "marker = i and everything the resume branch reads for i is complete and from iteration i" -/
 def GoodAt (sys : Sys S) (s0 : S) (i : Nat) (fs : FS Path) : Prop :=
@@ -279,8 +319,13 @@ theorem load_of_goodAt {sys : Sys S} (hl : Lawful sys) (s0 : S) {total i : Nat} 
   have hne : ((List.range sys.nsamp).map (sys.encSample (sAfter sys s0 (i + 1)))).isEmpty = false := by
     obtain ⟨m, hm⟩ : ∃ m, sys.nsamp = m + 1 := ⟨sys.nsamp - 1, by have := hl.nsamp_pos; omega⟩
     rw [hm, List.range_succ]; simp
+  have hcond : ((sys.encMean (sAfter sys s0 (i + 1))).isNone &&
+      ((List.range sys.nsamp).map (sys.encSample (sAfter sys s0 (i + 1)))).length != 1) = false := by
+    cases hm : sys.encMean (sAfter sys s0 (i + 1)) with
+    | some c => simp
+    | none => simp [hl.map_one _ hm]
   unfold load
-  simp only [if_true, h1, hl.parse_digits, baseOf, hf.2.2, hls, hne, hl.dec_enc, loadable, hr, hor, he, hoe]
+  simp only [if_true, h1, hl.parse_digits, baseOf, hf.2.2, hls, hne, hcond, hl.dec_enc, loadable, hr, hor, he, hoe]
   by_cases ht : i + 1 = total
   · simp [ht]
   · simp [ht]
@@ -356,7 +401,7 @@ theorem loop_good {sys : Sys S} (hl : Lawful sys) (s0 : S) (total : Nat) :
   | succ fuel ih =>
     intro j fs hj hpre
     -- the minisanity-history check in the middle of the iteration passes
-    have hA := iterOpsA_prefix_body sys .all j (sys.step j (sAfter sys s0 j))
+    have hA := iterOpsA_prefix_body sys j (sys.step j (sAfter sys s0 j))
     have hchk : (if j = 0 then Except.ok () else
         loadable (execs fs (iterOpsA sys .repaired .all j (sys.step j (sAfter sys s0 j))))
           (.mhist (baseOf .all (j - 1))) sys.okM) = Except.ok () := by
@@ -371,7 +416,7 @@ theorem loop_good {sys : Sys S} (hl : Lawful sys) (s0 : S) (total : Nat) :
           simp [loadable, baseOf, this, hm, hom]
     have hpre' : Pre sys s0 (j + 1) (execs fs (iterOpsA sys .repaired .all j (sys.step j (sAfter sys s0 j)) ++
         iterOpsB sys .repaired .all j)) := by
-      rw [iterOps_eq]
+      rw [iterOps_eq_all]
       exact Or.inr ⟨j, rfl, goodAt_after_iter hl hpre (List.prefix_refl _)⟩
     have hrec := ih (j + 1) _ (by omega) hpre'
     rw [sAfter_succ] at hrec
@@ -381,7 +426,7 @@ theorem loop_good {sys : Sys S} (hl : Lawful sys) (s0 : S) (total : Nat) :
     intro pre hp
     rcases prefix_append_cases hp with h | ⟨t, rfl, ht⟩
     · -- crash inside iteration j
-      rw [iterOps_eq, List.append_assoc] at h
+      rw [iterOps_eq_all, List.append_assoc] at h
       rcases prefix_append_cases h with h1 | ⟨t1, rfl, ht1⟩
       · exact pre_good (by omega) (pre_body_prefix hpre _ h1)
       · rw [List.singleton_append, List.prefix_cons_iff] at ht1
